@@ -10,7 +10,7 @@ NumsPool == IF Level = 1 THEN {<<<<"1">>>>, <<<<"1", "0">>>>, <<<<"1">>, <<"2">>
 SufPool == IF Level = 1 THEN {<<>>, <<S("alpha", <<>>)>>, <<S("p", <<"1">>)>>}
            ELSE {<<>>, <<S("alpha", <<>>)>>, <<S("rc", <<"1">>)>>, <<S("p", <<>>)>>,
                  <<S("p", <<"1">>), S("alpha", <<>>)>>, <<S("alpha", <<>>), S("p", <<"2">>)>>}
-RevPool == IF Level = 1 THEN {<<>>, <<"1">>} ELSE {<<>>, <<"0">>, <<"1", "0">>}
+RevPool == IF Level = 1 THEN {<<>>, <<"1">>} ELSE {<<>>, <<"2">>, <<"1", "0">>}
 Vers == {MkVer(ns, lt, ss, rv) : ns \in NumsPool, lt \in {"", "a"}, ss \in SufPool, rv \in RevPool}
 VARIABLES va, vb, vc
 vars == <<va, vb, vc>>
